@@ -346,9 +346,109 @@ def guard_text(tab):
     return "table %s over (n_working, head) = (0,0) (0,1) (>0,0) (>0,1)" % tab
 
 
+def stop_phase(ctx):
+    """`munged --stop` while a request accepted before it is still in progress: the client delivers its request slowly (but
+    inside the daemon's per-message I/O limit) and reads the large reply slowly (again inside the limit).  The daemon may
+    take as long as that needs; the stop command may not kill it before the reply is complete.  Timing guard: a run in which
+    this client itself overran a limit (loaded machine) proves nothing and is repeated; a violation is reported only when
+    the daemon was SIGKILLed (exit status -9) while the client was inside its limits."""
+    import rig, socket, struct, subprocess, threading
+    exe, err = rig.build_daemon(ctx, name="munged-stop", san=None)
+    if exe is None:
+        ctx.violation("munged does not build: " + err[-300:], {"obligation": "build (stop phase)"}, found_input=False)
+        return
+    limit = 2.0
+    try:
+        import re as _re
+        limit = int(_re.search(r"c_socket_timeout_msecs : N := (\d+)", open(os.path.join(vlib.COQ, "gen", "GenStop.v")).read()).group(1)) / 1000.0
+    except Exception:
+        pass
+    slow = 0.9 * limit
+    for attempt in range(3):
+        d = rig.Daemon(ctx, exe, tag="stop", nthreads=2)
+        if not d.start():
+            ctx.violation("munged does not start (stop phase)", {"obligation": "start"}, found_input=False)
+            return
+        payload = os.urandom(1000000)
+        body = rig.enc_req_body(cipher=0, mac=5, zip_=0, data=payload)
+        raw = rig.hdr(rig.T_ENC_REQ, 0, len(body)) + body
+        s = socket.socket(socket.AF_UNIX, socket.SOCK_STREAM)
+        s.setsockopt(socket.SOL_SOCKET, socket.SO_RCVBUF, 4096)     # little kernel buffering: the daemon is busy until we have read
+        s.connect(d.sock)
+        t0 = time.time()
+        s.sendall(raw[:4096])                       # accepted and being received when the stop arrives
+        time.sleep(0.05)
+        # reap the daemon as soon as it exits (a zombie still answers kill(pid, 0), which `munged --stop` polls)
+        reaper = threading.Thread(target=d.p.wait, daemon=True)
+        reaper.start()
+        stop = subprocess.Popen([exe, "--stop", "-S", d.sock], stdout=subprocess.PIPE, stderr=subprocess.STDOUT, text=True)
+        t_stop = time.time()
+        time.sleep(max(0.0, slow - (time.time() - t0)))
+        s.sendall(raw[4096:])
+        t_sent = time.time()
+        got = b""
+        want_len = None
+        s.settimeout(limit * 3)
+        t_first = None
+        try:
+            # read the reply slowly: spread over `slow` seconds from its first byte
+            while True:
+                c = s.recv(16384)
+                if not c:
+                    break
+                if t_first is None:
+                    t_first = time.time()
+                got += c
+                if want_len is None and len(got) >= 11:
+                    want_len = 11 + struct.unpack(">I", got[7:11])[0]
+                if want_len is not None and len(got) >= want_len:
+                    break
+                if want_len:
+                    due = t_first + slow * min(1.0, len(got) / float(want_len))
+                    time.sleep(max(0.0, due - time.time()))
+        except (socket.timeout, OSError):
+            pass
+        t_done = time.time()
+        s.close()
+        try:
+            out, _ = stop.communicate(timeout=30)
+        except subprocess.TimeoutExpired:
+            stop.kill()
+            out = "munged --stop did not return"
+        reaper.join(30)
+        rc = d.p.returncode
+        d.stop()
+        complete = want_len is not None and len(got) >= want_len
+        send_time = t_sent - t0
+        read_time = (t_done - t_first) if t_first else 0.0
+        within = send_time < 0.97 * limit and read_time < 0.97 * limit
+        ctx.count(("stop-slow-request", attempt))
+        ctx.cov.setdefault("input_distribution", {})["stop-slow-request"] = attempt + 1
+        ctx.log("stop phase: request delivered in %.2f s, reply read in %.2f s (%s of %s bytes), daemon exit %s, stop says %r"
+                % (send_time, read_time, len(got), want_len, rc, (out or "").strip()[:80]))
+        if complete and rc == 0:
+            return
+        if rc == -9 and within and not complete:
+            ctx.violation("`munged --stop` killed the daemon (SIGKILL, %.1f s after the stop was issued) while a request accepted before the stop "
+                          "was still being served inside the daemon's own I/O limits (request delivered in %.2f s, reply being read for %.2f s, "
+                          "limit %.1f s each): the client received %d of %s reply bytes"
+                          % (t_done - t_stop, send_time, read_time, limit, len(got), want_len),
+                          {"scenario": "700 KiB encode request sent over %.2f s, `munged --stop` 0.15 s after its first bytes, reply read over %.2f s"
+                                       % (slow, slow), "stop_output": (out or "")[-300:], "daemon_exit": rc})
+            return
+        # the client overran a limit itself (or the daemon dropped it for another reason): inconclusive, try again
+    ctx.notes.append("stop phase inconclusive in 3 attempts (client could not keep inside the I/O limits on this machine)")
+
+
 def run(ctx):
+    _run_own(ctx)
+    if not ctx.replay:
+        stop_phase(ctx)
+
+
+def _run_own(ctx):
     ctx.level = "proof"
-    proved = vlib.prove(ctx, ["Properties_C12.v", "Properties_C12_job.v"], facts=["work", "job"])
+    proved = vlib.prove(ctx, ["Properties_C12.v", "Properties_C12_job.v", "Properties_C12_stop.v"], facts=["work", "job", "stop"])
     ctx.log("proofs:", "ok" if proved else "BROKEN: " + getattr(ctx, "broken_obligation", "?"))
     replay = json.load(open(ctx.replay)) if ctx.replay else None
     # ---- the acceptor (job.c): its own harness, model and clauses; independent of the work-crew part below ----
@@ -639,3 +739,6 @@ continue
 def shutil_which(x):
     import shutil
     return shutil.which(x)
+
+
+MANIFEST["level"] = (MANIFEST["level"][0], MANIFEST["level"][1] + " The acceptor loop of job.c is a second model (JobModel, translated from the source text by tools/facts/job.py; Properties_C12_job.v: hand-off, backlog wait, stop, SIGHUP, progress, for every script of accept() results and signal deliveries), run against job.c itself with wrapped calls. Lost wake-ups are evaluated directly on work.c's event logs. `munged --stop`: Properties_C12_stop.v (the wait before SIGKILL exceeds two per-message I/O limits; constants regenerated from munge_defs.h) and a live slow-request scenario under `munged --stop`.", MANIFEST["level"][2])
